@@ -5,6 +5,7 @@ import (
 	"fmt"
 	"strings"
 
+	oaerrors "github.com/go-openapi/errors"
 	"github.com/go-openapi/validate"
 	rt "verif.local/rt"
 )
@@ -297,8 +298,21 @@ func runC20(sc *Scenario, keepLog bool) (rep *RunReport) {
 					wantWarn = len(mod[st.I].warns) > 0
 					wantAny = !wantValid || wantWarn
 				}
-				got := fmt.Sprintf("IsValid=%v HasErrors=%v HasWarnings=%v HasErrorsOrWarnings=%v AsErrorNil=%v", r.IsValid(), r.HasErrors(), r.HasWarnings(), r.HasErrorsOrWarnings(), r.AsError() == nil)
-				want := fmt.Sprintf("IsValid=%v HasErrors=%v HasWarnings=%v HasErrorsOrWarnings=%v AsErrorNil=%v", wantValid, !wantValid, wantWarn, wantAny, wantValid)
+				// AsError renders the errors (all of them, in order) as one composite error, nil when there is none
+				asErr := "<nil>"
+				if e := r.AsError(); e != nil {
+					if ce, ok := e.(*oaerrors.CompositeError); ok {
+						asErr = strings.Join(texts(ce.Errors), "|")
+					} else {
+						asErr = "(not a composite error) " + e.Error()
+					}
+				}
+				wantAsErr := "<nil>"
+				if st.I >= 0 && mod[st.I].live && !wantValid {
+					wantAsErr = strings.Join(mod[st.I].errs, "|")
+				}
+				got := fmt.Sprintf("IsValid=%v HasErrors=%v HasWarnings=%v HasErrorsOrWarnings=%v AsError=[%s]", r.IsValid(), r.HasErrors(), r.HasWarnings(), r.HasErrorsOrWarnings(), asErr)
+				want := fmt.Sprintf("IsValid=%v HasErrors=%v HasWarnings=%v HasErrorsOrWarnings=%v AsError=[%s]", wantValid, !wantValid, wantWarn, wantAny, wantAsErr)
 				if got != want {
 					viol(i, st, "query", want, got)
 				}
